@@ -26,13 +26,14 @@ var c20Events = []string{
 	"X.tcp-open-close", "X.first-packet-PINGREQ", "X.CONNECT(v5,auth-method-without-OnAuth)-refused",
 	"A.publish(q0, topic alias above the advertised maximum): broker answers DISCONNECT 0x94",
 	"A.AUTH(re-authenticate, accepted by OnReAuth): broker answers AUTH", "A.connect(v5,clean0,expiry100,authentication method m accepted by OnEnhancedAuth)",
+	"B.publish(q0, 20000-byte payload: three-byte remaining length)",
 }
 
 // c20AuthAlpha: the alphabet of the tree with authentication hooks installed (AUTH packets).
 var c20AuthAlpha = []int{23, 22, 8, 9, 10, 14, 2, 5, 1}
 
 // c20FailedAlpha: the sub-alphabet of the tree about connections that never attach.
-var c20FailedAlpha = []int{18, 19, 20, 1, 11, 0, 9, 12, 21, 2, 5}
+var c20FailedAlpha = []int{18, 19, 20, 1, 11, 0, 9, 12, 21, 2, 5, 24}
 
 var c20TypeField = map[byte]string{1: "Connect", 2: "Connack", 3: "Publish", 4: "Puback", 5: "Pubrec", 6: "Pubrel", 7: "Pubcomp", 8: "Subscribe", 9: "Suback", 10: "Unsubscribe", 11: "Unsuback", 12: "Pingreq", 13: "Pingresp", 14: "Disconnect", 15: "Auth"}
 
@@ -245,14 +246,20 @@ func c20Run(c *explore.Ctx, cf c20Cfg, seq []int) int {
 				}
 				send(&B, "b", &refmqtt.Packet{Type: refmqtt.SUBSCRIBE, PacketID: 77, Subs: []refmqtt.Sub{{Filter: "t", QoS: 0}}})
 				B.sub = true
-			case 4, 5:
+			case 4, 5, 24:
 				if !online(&B) {
 					ok = false
 					break
 				}
 				npub++
 				q := byte(e - 4)
+				if e == 24 {
+					q = 0
+				}
 				p := &refmqtt.Packet{Type: refmqtt.PUBLISH, Topic: "t", QoS: q, Payload: []byte(fmt.Sprintf("m%d", npub))}
+				if e == 24 {
+					p.Payload = []byte(strings.Repeat("L", 20000))
+				}
 				if q > 0 {
 					B.pid++
 					p.PacketID = B.pid
